@@ -471,6 +471,9 @@ class Interp:
             allargs = [fi.cls] + allargs
         if len(allargs) > len(params) and a.vararg is None:
             raise PyRaise("TypeError", f"too many positional arguments for {fi.qualname}")
+        for x in list(allargs) + list(kwargs.values()):
+            if isinstance(x, SymSeq) and getattr(x, "fresh_array", False):
+                x.fresh_array = False  # the array escapes into a callee: A-FRESH-ARRAY no longer applies to it
         bound = dict(zip(params, allargs))
         if a.vararg is not None:
             bound[a.vararg.arg] = tuple(allargs[len(params):])
@@ -656,6 +659,9 @@ class Interp:
 
     def assign(self, target, v, frame):
         if isinstance(target, ast.Name):
+            if isinstance(v, SymSeq) and getattr(v, "fresh_array", False) \
+                    and any(o is v for k, o in frame.vars.items() if k != target.id):
+                v.fresh_array = False  # a second name for the same array: stores through either name are no longer modelled
             frame.vars[target.id] = v
         elif isinstance(target, (ast.Tuple, ast.List)):
             items = self.iter_concrete(v)
